@@ -29,6 +29,7 @@ from rpyc.core import consts
 from rpyc.core.async_ import AsyncResult
 
 import protonet
+import valtext
 from lineproto import run_driver, DriverError
 from pipeline import Corr
 from prng import Rng
@@ -71,9 +72,13 @@ BIG = 10 ** (LIMIT + 10)
 FINAL_CID = 9999
 # x: an Exception; bc/bg/bb/bs/bk: BaseExceptions that are not Exceptions (asyncio.CancelledError, GeneratorExit, a user
 # class, SystemExit, KeyboardInterrupt) — answered like any other unless the side is configured to propagate bs / bk locally
-OUTS = ["v", "r", "x", "bc", "bg", "bb", "bs", "bk", "ei", "ed", "pi", "pr"]
-MODEL_OUT = {"v": "v", "r": "r", "x": "x", "bc": "b", "bg": "b", "bb": "b", "bs": "b", "bk": "b",
+# vv / xv: the handler returns (payload, value) / raises ValueError(payload, value) where `value` is the boundary value of the
+# serializer that travelled to it as a by-value argument inside the script
+# vr / xr: the same, but the value does NOT travel with the request (the handler looks it up): result direction only
+OUTS = ["v", "vv", "vr", "r", "x", "xv", "xr", "bc", "bg", "bb", "bs", "bk", "ei", "ed", "pi", "pr"]
+MODEL_OUT = {"v": "v", "vv": "v", "vr": "v", "r": "r", "x": "x", "xv": "x", "xr": "x", "bc": "b", "bg": "b", "bb": "b", "bs": "b", "bk": "b",
              "ei": "e", "ed": "e", "pi": "p", "pr": "p"}
+ALTERED = -2
 LOCAL_SWITCH = {"SystemExit": "propagate_SystemExit_locally", "KeyboardInterrupt": "propagate_KeyboardInterrupt_locally"}
 LOCAL_OUT = {"SystemExit": "bs", "KeyboardInterrupt": "bk"}
 
@@ -106,6 +111,62 @@ def to_tuple(x):
     return tuple(to_tuple(i) for i in x) if isinstance(x, (list, tuple)) else x
 
 
+_POOL = []
+
+
+def value_pool():
+    """texts (valtext notation) of the serializer's boundary values that can travel by value: c04's boundary corpus
+    (lone and paired surrogates, NUL and astral text, ints at the immediate-window edges and just below the digit limit,
+    NaN payloads, signed zeros, 255/256-long strings and tuples, nested frozensets and slices ...), minus what `dump`
+    refuses (that is the unencodable class) and minus the very large ones"""
+    if _POOL:
+        return _POOL
+    try:
+        from props import c04
+    except ImportError:
+        import c04
+    from rpyc.core import brine
+    seen = set()
+    for v in c04.boundary_values():
+        try:
+            if not brine.dumpable(v) or c04.has_overlimit_int(v) or c04.depth_of(v) > 40:
+                continue
+            if type(v) in (tuple, frozenset) and len(v) > 300:
+                continue
+            data = brine.dump(v)
+            if len(data) > 70000:
+                continue
+            t = valtext.to_text(v)
+            if valtext.canon(valtext.from_text(t)) != valtext.canon(v):
+                continue
+        except Exception:  # noqa
+            continue
+        if t not in seen:
+            seen.add(t)
+            _POOL.append(t)
+    return _POOL
+
+
+def gen_extra(r):
+    if r.chance(3, 4):
+        return r.choice(value_pool())
+    try:
+        from props import c04
+    except ImportError:
+        import c04
+    from rpyc.core import brine
+    for _ in range(5):
+        v = c04.gen_value(r, 3)
+        try:
+            if brine.dumpable(v) and not c04.has_overlimit_int(v) and len(brine.dump(v)) < 20000:
+                t = valtext.to_text(v)
+                if valtext.canon(valtext.from_text(t)) == valtext.canon(v):
+                    return t
+        except Exception:  # noqa
+            pass
+    return "I7"
+
+
 # ---------------------------------------------------------------------------------------------- the real run
 class Node(rpyc.Service):
     """both sides expose the same service: `do(script)` runs one handler script"""
@@ -136,18 +197,43 @@ class Run(object):
         self.usable = None
         self.injected_seqs = set()
         self.skipped = []
+        self.extras = {}              # cid -> the value that travels with that script
+        self.arg_altered = []         # cids whose argument value arrived different from what was sent
         self.local_exc = None
         self.local = {}               # side -> "SystemExit" | "KeyboardInterrupt": its propagate_*_locally switch is on
         if program and program[0][0] == "cfg":
             self.local["B"] = program[0][1]
 
+    def to_wire(self, script):
+        """program form [cid, [[kind, script]...], out(, value text)] -> the tuple that travels (the value by value)"""
+        cid, pre, out = script[0], script[1], script[2]
+        w = (cid, tuple((k, self.to_wire(sub)) for k, sub in pre), out)
+        if len(script) > 3:
+            v = valtext.from_text(script[3])
+            self.extras[cid] = v
+            # vr / xr: only a marker travels; the handler fetches the value locally, so it crosses the wire once, as a result
+            w = w + ((("#", cid),) if out in ("vr", "xr") else (v,))
+        return w
+
+    def check_extra(self, cid, payload, got):
+        try:
+            same = valtext.canon(got) == valtext.canon(self.extras.get(cid))     # (no value given: None travels)
+        except Exception:  # noqa
+            same = False
+        return payload if same else ALTERED
+
     # -- handlers
     def handle(self, side, script):
-        cid, pre, out = script
+        cid, pre, out = script[:3]
+        extra = script[3] if len(script) > 3 else None
         self.invoked.append((side, cid))
+        if out in ("vr", "xr"):
+            extra = self.extras.get(cid)
+        elif len(script) > 3 and self.check_extra(cid, 0, extra) == ALTERED:
+            self.arg_altered.append(cid)
         for kind, sub in pre:
             self.call(side, kind, sub)
-        payload = 1000 + cid if out in ("v", "r", "x") or out[0] == "b" else 0
+        payload = 1000 + cid if out in ("v", "vv", "vr", "r", "x", "xv", "xr") or out[0] == "b" else 0
         # SystemExit / KeyboardInterrupt on a side configured to propagate it locally: not answered, by configuration
         local = self.local.get(side) is not None and out == LOCAL_OUT[self.local[side]]
         self.rec.log(t="finish", side=side, cid=cid, out="l" if local else MODEL_OUT[out], payload=payload)
@@ -158,6 +244,10 @@ class Run(object):
             raise exc
         if out == "v":
             return payload
+        if out in ("vv", "vr"):
+            return (payload, extra)
+        if out in ("xv", "xr"):
+            raise ValueError(payload, extra)
         if out == "r":
             obj = [payload]
             self.refs[id(obj)] = payload
@@ -176,22 +266,25 @@ class Run(object):
         raise AssertionError(out)
 
     # -- requests
-    def classify_val(self, res):
+    def classify_val(self, res, cid=None):
         if type(res) is int:
             return ("R", res)
+        if type(res) is tuple and len(res) == 2 and type(res[0]) is int:
+            return ("R", self.check_extra(cid, res[0], res[1]))
         try:
             inst = res.____id_pack__[2]
             return ("R", self.refs.get(inst, -1))
         except Exception:  # noqa
             return ("R", 0)
 
-    @staticmethod
-    def classify_exc(ex):
+    def classify_exc(self, ex, cid=None):
         if isinstance(ex, EOFError):
             return ("EOF", 0)
         if type(ex).__name__ in ("AsyncResultTimeout", "TimeoutError"):
             return ("TO", 0)
         a = getattr(ex, "args", ())
+        if type(a) is tuple and len(a) == 2 and type(a[0]) is int:
+            return ("X", self.check_extra(cid, a[0], a[1]))
         return ("X", a[0] if a and type(a[0]) is int else 0)
 
     def note(self, side, cid, kind, payload):
@@ -201,9 +294,9 @@ class Run(object):
         try:
             v = res.value
         except BaseException as ex:  # noqa
-            kind, payload = self.classify_exc(ex)
+            kind, payload = self.classify_exc(ex, cid)
         else:
-            kind, payload = self.classify_val(v)
+            kind, payload = self.classify_val(v, cid)
         if not isinstance(cid, int) and kind == "X":   # undecodable arguments: the exception's data is not compared
             payload = 0
         self.note(side, cid, kind, payload)
@@ -220,9 +313,9 @@ class Run(object):
             except BaseException as ex:  # noqa
                 if ex is self.local_exc:
                     raise       # the locally propagated SystemExit / KeyboardInterrupt unwinds every frame of its side
-                self.note(side, cid, *self.classify_exc(ex))
+                self.note(side, cid, *self.classify_exc(ex, cid))
             else:
-                self.note(side, cid, *self.classify_val(res))
+                self.note(side, cid, *self.classify_val(res, cid))
                 if side == "A" and sub[2] == "r":
                     self._last_ref = res      # kept until the next synchronous call of A (then HANDLE_DEL goes out)
                 res = None
@@ -256,7 +349,7 @@ class Run(object):
         if k == "cfg":
             return
         if k in ("s", "a"):
-            self.call("A", k, to_tuple(act[1]))
+            self.call("A", k, self.to_wire(act[1]))
             if k == "a":
                 self.a_async.append(act[1][0])
         elif k == "w":
@@ -463,14 +556,15 @@ class Run(object):
             obs["dead" + side] = "T" if conn.closed else "F"
             obs["inbox" + side] = len(self.net.streams[side].inbox)
         obs["usable"] = self.usable
+        obs["args_altered"] = sorted(self.arg_altered)
         # what each asynchronous result holds NOW (an outcome, once given, must not change)
         obs["final"] = {}
         for (side, cid), ar in self.asyncs.items():
             if side == "A" and (side, cid) in self.outcomes:
                 try:
-                    now = self.classify_val(ar.value)
+                    now = self.classify_val(ar.value, cid)
                 except BaseException as ex:  # noqa
-                    now = self.classify_exc(ex)
+                    now = self.classify_exc(ex, cid)
                 obs["final"]["%s" % (cid,)] = (list(self.outcomes[(side, cid)][0]), list(now))
 
 
@@ -544,6 +638,8 @@ def canonical(run, mline):
     visible = set(run.cid_seq.values())
     impl = ["acc=all", "wire=" + ",".join(o["wire"])]
     mod = []
+    if o.get("args_altered"):
+        impl.append("argument-values-altered-in-transit=%s" % o["args_altered"])
     pm = parse_model(mline)
     if pm is None:
         return ("(impl) " + " ".join(impl), "(model) " + mline)
@@ -592,13 +688,17 @@ def gen_script(r, next_cid, depth, outs):
     if depth > 0:
         for _ in range(r.choice([0, 0, 1, 1, 2])):
             pre.append([r.choice(["s", "s", "a"]), gen_script(r, next_cid, depth - 1, outs)])
-    return [cid, pre, r.choice(outs)]
+    out = r.choice(outs)
+    sc = [cid, pre, out]
+    if out in ("vv", "xv", "vr", "xr") or r.chance(1, 4):
+        sc.append(gen_extra(r))        # a boundary value of the serializer travels as a by-value argument
+    return sc
 
 
 def gen_program(r, size, heavy, local=None):
     """heavy: include the slow outcome classes (deep tuple, repr that raises); local: "SystemExit" | "KeyboardInterrupt":
     side B propagates that exception locally, and only handlers at B's base level raise it"""
-    outs = ["v", "v", "r", "x", "bc", "bg", "bb", "bs", "bk", "ei", "pi"] + (["ed", "pr"] if heavy else [])
+    outs = ["v", "vv", "vv", "vr", "r", "x", "xv", "xr", "bc", "bg", "bb", "bs", "bk", "ei", "pi"] + (["ed", "pr"] if heavy else [])
     if local:
         outs = [o for o in outs if o != LOCAL_OUT[local]]
     next_cid = [1]
@@ -643,6 +743,15 @@ def boundary_programs():
     out.append([["j", "unmatched"], ["s", [1, [], "v"]]])
     out.append([["a", [1, [], "v"]], ["j", "steal"], ["w", 0], ["s", [2, [], "v"]]])
     out.append([["a", [1, [["a", [2, [], "x"]], ["s", [3, [["a", [4, [], "r"]]], "v"]]], "ei"]], ["s", [5, [], "pi"]]])
+    # every boundary value of the serializer as argument + result, and as argument + exception argument (also via a callback)
+    for i, t in enumerate(value_pool()):
+        out.append([["s", [1, [], "vv", t]]])
+        if i % 2 == 0:
+            out.append([["s", [1, [], "vr", t]], ["a", [2, [], "xr", t]], ["w", 0]])
+        if i % 3 == 0:
+            out.append([["a", [1, [], "xv", t]], ["w", 0]])
+        if i % 5 == 0:
+            out.append([["s", [1, [["s", [2, [], "vv", t]]], "xv", t]]])
     # SystemExit / KeyboardInterrupt with the matching propagate_*_locally switch on at the serving side: routed locally by
     # configuration (the other one, and every other BaseException, is still answered)
     for kind, lo, other in (("SystemExit", "bs", "bk"), ("KeyboardInterrupt", "bk", "bs")):
@@ -657,6 +766,8 @@ def stats_of(prog):
 
     def walk(s, d):
         outs.add(s[2])
+        if len(s) > 3:
+            kinds.add("value:" + s[3][:1])
         depth[0] = max(depth[0], d)
         for k, sub in s[1]:
             kinds.add("nested-" + k)
@@ -686,8 +797,8 @@ def correspondence(ctx):
               "model. Non-trivial = at least one request; distinct = distinct (action kinds, outcome set, depth, "
               "frame-count class).")
     r = Rng(ctx.seed).fork("c08")
-    n_rand = ctx.budget(1900, 40000)
-    deadline = time.time() + ctx.budget(45, 700)
+    n_rand = ctx.budget(1500, 40000)
+    deadline = time.time() + ctx.budget(42, 700)
     progs = boundary_programs()
     for i in range(n_rand):
         local = None if i % 12 else r.choice(["SystemExit", "KeyboardInterrupt"])
@@ -781,6 +892,8 @@ def oracle(run):
                                              "handler %s" % e.get("handler"))
         if n != 1:
             sig = "C08:no-response" if n == 0 else "C08:duplicate-response"
+            if n == 0 and getattr(run, "b_exit", None) and not local:
+                sig = "C08:request-lost-receiver-cannot-decode"
             if n == 0 and not e.get("hidden"):
                 o = out_of.get((peer, e.get("cid")), ("?", 0))[0]
                 if o == "b":
@@ -789,7 +902,8 @@ def oracle(run):
                     sig = "C08:unserializable-exception-no-response"
                 elif o == "e":
                     sig = "C08:unencodable-result-no-response"
-            return ("%s got %d response frames (closed: A=%s B=%s)" % (who, n, obs["deadA"], obs["deadB"]), sig)
+            return ("%s got %d response frames (closed: A=%s B=%s; serving thread ended with %s)"
+                    % (who, n, obs["deadA"], obs["deadB"], getattr(run, "b_exit", None)), sig)
         if e.get("hidden") or e["seq"] in run.injected_seqs and e["side"] == "A":
             continue
         key = e.get("cid") if e.get("cid") is not None else e.get("label")
@@ -809,6 +923,8 @@ def oracle(run):
         if e.get("cid") is not None and (peer, e["cid"]) in out_of:
             o, p = out_of[(peer, e["cid"])]
             want = {"v": "R", "r": "R"}.get(o, "X")
+            if kind == want and payload == ALTERED:
+                return ("%s: the value carried by its response arrived altered at the requester" % who, "C08:response-altered")
             if kind != want or (o in ("v", "r", "x", "b") and payload != p):
                 return ("%s: handler produced %s/%d, requester got %s/%d" % (who, o, p, kind, payload), "C08:misrouted")
     # a duplicate hand-built response for an answered request must not reach anybody
